@@ -865,7 +865,7 @@ func evalActionDelete(node *ActionExpression, env *Environment) Object {
 		}
 
 		if obj == UNDEFINED {
-			env.Set(id.Value, val)
+			// deleting elements from a set that does not exist is a no-op
 			return obj
 		}
 
